@@ -132,7 +132,7 @@ def jwe_key_kinds(alg, enc):
 
 
 def jwe_encrypt(form, protected, plaintext, jkey, algorithms, unprotected=None, header=None, aad=None,
-                sender_key=None, recipients=None, registry=None):
+                sender_key=None, recipients=None, registry=None, key_for_the_rest=None):
     """Encrypt with joserfc. recipients (general only): list of (header, jkey[, sender]). -> Res(token)"""
     from joserfc import jwe
     kw = {"algorithms": algorithms} if registry is None else ({"registry": registry} if algorithms is None else {"registry": registry, "algorithms": algorithms})
@@ -150,10 +150,13 @@ def jwe_encrypt(form, protected, plaintext, jkey, algorithms, unprotected=None, 
             obj.add_recipient(header, jkey)
         else:
             for r in recipients:
-                obj.add_recipient(r[0], r[1])
+                if r[1] is None:
+                    obj.add_recipient(r[0])          # this recipient's key comes from the key argument of encrypt_json
+                else:
+                    obj.add_recipient(r[0], r[1])
                 if len(r) > 2 and r[2] is not None:
                     obj.recipients[-1].sender_key = r[2]
-        return jwe.encrypt_json(obj, jkey if via_param else None, sender_key=sender_key, **kw)
+        return jwe.encrypt_json(obj, jkey if via_param else key_for_the_rest, sender_key=sender_key, **kw)
     return call(run)
 
 
